@@ -252,6 +252,22 @@ def check_parser_reads(model, rep, rule):
     f = model.func(f"{P}.get_counted_bytes")
     t = " ".join(src(f.node).split())
     rep.check("length = int.from_bytes(self.get_bytes(length_size), 'big')" in t and "return self.get_bytes(length)" in t, rule, f.qualname, where(f, f.node), "counted bytes go through the bounded get_bytes", "get_counted_bytes bypasses get_bytes", stmt="counted")
+    # a Parser starts inside its buffer: __init__ positions through the bounded seek(), never by storing the caller's offset directly
+    pi = model.func(f"{P}.__init__")
+    direct = [x for x in ast.walk(pi.node) if isinstance(x, ast.Assign) and any(src(t_) == "self.current" for t_ in x.targets) and isinstance(x.value, ast.Name) and x.value.id in pi.params()]
+    seeks = [c for c in ast.walk(pi.node) if isinstance(c, ast.Call) and src(c.func) == "self.seek"]
+    rep.check(not direct and bool(seeks), rule, pi.qualname, where(pi, direct[0] if direct else pi.node), "the start offset goes through seek() (bounds-checked)",
+              "Parser.__init__ stores the caller's start offset without the bounds check of seek(): a negative offset reads from the tail of the buffer (names are 'decoded' from unrelated octets) or raises "
+              "struct.error instead of FormError", stmt="init-seeks")
+    # a Parser is built over the WHOLE message (compression pointers are message offsets), never over a slice of it
+    n_pc = 0
+    for g in model.all_functions():
+        for c in ast.walk(g.node):
+            if isinstance(c, ast.Call) and src(c.func).split(".")[-1] == "Parser" and "wire" in src(c.func).lower() + "wire" and c.args and (dotted(c.func) or "").endswith(("wire.Parser", "wirebase.Parser")):
+                n_pc += 1
+                rep.check(not isinstance(c.args[0], ast.Subscript), rule, g.qualname, where(g, c), f"`{src(c)[:50]}` parses in the whole buffer",
+                          f"`{src(c)[:70]}` builds the parser over a slice: compression pointers inside the data are offsets into the whole message, so they resolve to the wrong octets (BadPointer, or silently "
+                          "another name)", stmt=f"parser-whole-buffer {g.name}")
     # who touches Parser.wire directly
     for g in model.all_functions():
         if g.cls is not None and g.cls.qualname == P:
@@ -544,6 +560,10 @@ def run(model, rep, tier):
 
 
 WITNESSES = [
+    {"id": "c04-rdata-from-wire-parses-a-slice", "rule": "R-04.5", "file": "dns/rdata.py", "expect": "fires",
+     "old": "    parser = dns.wire.Parser(wire, current)\n    with parser.restrict_to(rdlen):", "new": "    parser = dns.wire.Parser(wire[current : current + rdlen])\n    with parser.restrict_to(rdlen):"},
+    {"id": "c04-parser-init-stores-offset", "rule": "R-04.5", "file": "dns/wirebase.py", "expect": "fires",
+     "old": "        self.current = 0\n        self.end = len(self.wire)\n        if current:\n            self.seek(current)", "new": "        self.current = current\n        self.end = len(self.wire)"},
     {"id": "c04-ede-decodes-with-surrogateescape", "rule": "R-04.11", "file": "dns/edns.py", "expect": "fires",
      "old": "            btext = text.decode(\"utf8\")", "new": "            btext = text.decode(\"utf8\", \"surrogateescape\")"},
     {"id": "c04-question-outside-recording-try", "rule": "R-04.7", "file": "dns/message.py", "expect": "fires",
